@@ -209,10 +209,40 @@ def model_docs(gens):
     return model.batch("C02", cmds, chunk=20), model.batch("C02", cmds2, chunk=20)
 
 
+OPEN_TEXT_CLASS = "C02-block-string-blank-line"
+
+
 def classify(g, op, problems, covered):
-    """finding class of a failing operation, or None (= violation).  Every class found while building the check
-    is fixed in /repo (known_findings/C02.json "fixed"); the former class streams stay as regression streams."""
+    """finding class of a failing operation, or None (= violation).  One class is open: a block string with a
+    line of blanks only, failing by an altered string value and nothing else."""
+    names, frags = G.reachable(g.doc, op)
+    printed = "\n\n".join([print_ast(op)] + [print_ast(frags[n]) for n in names])
+    if OPEN_TEXT_CLASS in G.text_classes(printed) and {p["kind"] for p in problems} <= {"ast", "constant"}:
+        return OPEN_TEXT_CLASS
     return None
+
+
+def positional_args(g, op, minfo, rng):
+    """argument values for the i-th operation variable under the name of the i-th method parameter (whatever the
+    generator renamed it to)"""
+    from ..gen import args as argsgen
+
+    from graphql import NonNullTypeNode
+
+    ag = argsgen.ArgGen(g.sc.notes.get("schema") or g.schema, rng, g.res.get("config", {}).get("scalars"))
+    vals = ag.for_operation(op, "rand")
+    params = [p for p in minfo["params"] if "VAR_" not in p[3]]
+    # the generator lists the parameters of non-null variables first, then the nullable ones, each in variable order
+    vdefs = list(op.variable_definitions or ())
+    order = [v.variable.name.value for v in vdefs if isinstance(v.type, NonNullTypeNode)] + \
+            [v.variable.name.value for v in vdefs if not isinstance(v.type, NonNullTypeNode)]
+    enc = {}
+    for var, p in zip(order, params):
+        jv, e = vals[var]
+        if jv is argsgen.OMIT:
+            continue
+        enc[p[0]] = e
+    return enc
 
 
 def drive(run, g, mdocs, msets, stream, extract=False):
@@ -223,9 +253,12 @@ def drive(run, g, mdocs, msets, stream, extract=False):
     ld = g.start()
     try:
         if not ld.get("ok"):
+            # no method can hand anything to the transport: the property fails for every operation of the package
+            bad = {k: v for k, v in (ld.get("modules") or {}).items() if v != "ok"}
             run.dist(stream, "package-does-not-import")
-            run.extra.setdefault("import_failures", []).append({"seed": g.sc.seed, "modules": {
-                k: v for k, v in (ld.get("modules") or {}).items() if v != "ok"}})
+            run.extra.setdefault("import_failures", []).append({"seed": g.sc.seed, "modules": bad})
+            run.violation(f"the generated package does not import ({str(bad)[:200]}): no operation of it can be sent",
+                          dict(rep, modules=bad))
             return 0
         consts = None
         if extract:
@@ -242,8 +275,11 @@ def drive(run, g, mdocs, msets, stream, extract=False):
             if m not in ld.get("methods", {}):
                 run.violation(f"method {m} missing from the generated client", dict(rep, op=op.name.value), found_input=False)
                 continue
-            _v, enc = g.encoded_args(op, random.Random(g.sc.seed * 31 + i))
-            c = g.call(method=m, args=enc, response={})
+            enc = positional_args(g, op, ld["methods"][m], random.Random(g.sc.seed * 31 + i))
+            c = g.call(method=m, args=enc, response={}, events=0)
+            run.dist("operation_kind", op.operation.value + ("/extract" if extract else ""))
+            if any(v.variable.name.value in G.LOCALS for v in (op.variable_definitions or ())):
+                run.dist("variables_named_like_locals", op.operation.value)
             req = c.get("request") or {}
             q, on = req.get("query"), req.get("operationName")
             run.count()
@@ -269,6 +305,8 @@ def drive(run, g, mdocs, msets, stream, extract=False):
                 if sent is not None:
                     if sent == mdocs[1][i]:
                         run.dist("k1_docs", "equal")
+                    elif problems and classify(g, op, problems, covered):
+                        run.dist("k1_docs", "differs-in-open-finding-class")
                     else:
                         run.dist("k1_docs", "DIFFERENT")
                         run.violation(
@@ -304,7 +342,15 @@ def generation_failed(run, g, stream):
     short = exc[0].split(".")[-1]
     run.dist(stream, "generator-raised:" + short)
     if "InvalidInput" in exc[0] or "SyntaxError" in exc[0] or "TokenError" in exc[0]:
-        # the text path broke the generated source: a C02 failure for every operation of the package
+        # a C02 failure only when the source line black chokes on belongs to an embedded operation string
+        # (other causes, e.g. an invalid identifier in a model, are C04/C18's)
+        msg = (exc[1] or "").splitlines()
+        offending = msg[1].strip() if len(msg) > 1 else ""
+        printed = {l.strip() for d in parse(g.sc.queries).definitions for l in print_ast(d).splitlines()}
+        if not (offending in printed or "gql(" in offending or "_GQL" in offending or '"""' in offending
+                or any(offending and offending in l for l in printed)):
+            run.dist(stream, "generator-raised-elsewhere:" + short)
+            return False
         run.violation(f"generation dies in the text path ({short}) on a valid operation",
                       dict(base_rep(g), exc=exc, text_classes=G.text_classes(print_ast(parse(g.sc.queries)))))
         return True
@@ -391,6 +437,20 @@ def documents(ctx):
                 advs.append(d)
     stream_scenarios(ctx, "decorated_adversarial", advs)
     stream_scenarios(ctx, "decorated_adversarial_extract", advs[: (20 if T else 4)], extract=True)
+    # ---- structured stream: deep fragment chains in every definition order, spreads nested in fields of fragments,
+    #      mixin fragments with object/abstract fields in every order, variables named like the method's locals on
+    #      queries, mutations and subscriptions, sync and async; and the C01 regression corpus
+    st = [x for x in (G.structured(base + 7000 + i) for i in range(120 if T else 24)) if x]
+    for x in st:
+        run.dist("structured_order", x.notes["order"])
+    stream_scenarios(ctx, "structured", st)
+    stream_scenarios(ctx, "structured_extract", st[: (40 if T else 8)], extract=True)
+    cp = G.corpus_c01()
+    stream_scenarios(ctx, "corpus_c01", cp)
+    stream_scenarios(ctx, "corpus_c01_extract", cp, extract=True)
+    wn = [s for s in (make_base(base + 8000 + i, ("weird_names", "subscriptions")) for i in range(40 if T else 8)) if s]
+    stream_scenarios(ctx, "weird_names_subscriptions", wn)
+    stream_scenarios(ctx, "weird_names_subscriptions_extract", wn[: (12 if T else 3)], extract=True)
     # ---- ExtractOperations
     ext = []
     for i in range(60 if T else 10):
@@ -480,7 +540,7 @@ def literals(ctx):
             v = G.rand_value(rng, False)
         specs.append((v, False, G.WHERE[i % len(G.WHERE)]))
     # adversarial stream
-    adv = [("it's", False, "argument"), ("a\nb", False, "argument"), ("a\\nb", False, "directive"),
+    adv = [("a\n   \nb", True, "argument"), ("it's", False, "argument"), ("a\nb", False, "argument"), ("a\\nb", False, "directive"),
            ("blk", True, "argument"), ("a b", False, "default"), ("two\nlines", True, "object")]
     for i in range(100 if T else 18):
         v = G.rand_value(rng, True)
@@ -501,6 +561,9 @@ def literals(ctx):
             continue
         rep = {"schema": sc.sdl, "queries": sc.queries, "value": v, "block": b, "where": w, "problems": problems,
                "sent": sent}
+        if OPEN_TEXT_CLASS in tc and {p["kind"] for p in problems} <= {"ast"}:
+            run.finding(OPEN_TEXT_CLASS, f"block string {v!r} at position {w}: value altered", rep)
+            continue
         m = minimise(v, b, w) if minimised < 2 else v
         minimised += 1
         rep["minimised_value"] = m
